@@ -285,6 +285,20 @@ def main():
         r.count(("dec", repr(cdesc)))
         try:
             dec = unpack_dap2_data(BytesReader(ref), dds_to_dataset(ref_dds(cdesc)))
+            # the same conforming stream delivered in blocks of arbitrary sizes (as a transport would) decodes alike
+            from pydap.lib import StreamReader
+            sizes = rng.choice([[1], [2], [3], [4], [6], [10], [16], [64], [5, 1, 7], [rng.randint(1, 40) for _ in range(6)]])
+            blocks, pos, k = [], 0, 0
+            while pos < len(ref):
+                n_ = sizes[k % len(sizes)]
+                blocks.append(ref[pos:pos + n_])
+                pos += n_
+                k += 1
+            dec_chunked = unpack_dap2_data(StreamReader(iter(blocks)), dds_to_dataset(ref_dds(cdesc)))
+            t2, canon2 = decoded_to_desc_val(cdesc, dec_chunked, np)
+            if canon2 != source_canon(cdesc):
+                direct.append({"law": "the client decodes a conforming stream delivered in blocks of any sizes to the reference values",
+                               "dataset": repr(cdesc)[:1500], "block_sizes": sizes, "got": repr(canon2)[:500]})
             term, canon = decoded_to_desc_val(cdesc, dec, np)
             if canon != source_canon(cdesc):
                 direct.append({"law": "the client decodes reference bytes to the reference values (types, shapes, values)",
